@@ -2,15 +2,75 @@ package e1front
 
 import "verifsim/core"
 
+var e1Components = map[string]string{
+	"ech.NewConn / ech.Conn (client-facing server), internal/hpke, config.go": "real code under test",
+	"TLS client":                "real crypto/tls client (go1.26.8): ECH, HelloRetryRequest, PSK resumption, client certificates, X25519MLKEM768",
+	"backend / public-name TLS": "real crypto/tls server (go1.26.8), with EncryptedClientHelloKeys on the public-name side",
+	"other ECH clients":         "harness toolbox echbox (own ClientHello codec, EncodedClientHelloInner encoder/decoder, AAD builder) sealing with the standard library's crypto/hpke",
+	"network":                   "simulated: simnet links (seeded segmentation, latency, short reads, cuts, stalls, flow-control window) on the virtual clock; ScriptConn for single-goroutine replays",
+	"clock":                     "virtual (testing/synctest)",
+	"crypto randomness":         "pinned per plan (testing/cryptotest)",
+}
+
+var e1Rules = map[string][3]string{
+	// rule, exhaustive dimensions, required probes (comma separated)
+	"C01": {"one plan = one real-stack topology drawn from the seed (client config, backend config, key set, links, topology); non-trivial = every handshake of the plan completed as expected; distinct = different canonical (event kind, node, size class) sequence of the simulated network",
+		"", "hrr_seen,psk_resumed,pq_key_share,stale_rejected,retry_config_used,inner_reconstruction_checked,inner_without_sni"},
+	"C02": {"substitution plans: one sealed hello with one deliberate mismatch; flip plans: one accepted hello (toolbox, real client, or the hello after HelloRetryRequest) and every single-bit corruption of its record; an evaluation = one fresh NewConn; distinct = (substitution kind, layout classes) resp. one per flip plan",
+		"every single-bit flip of the hello record, for each flip plan's hello", "flip_aborted,flip_passthrough,retry_flip_aborted"},
+	"C03": {"live plans with a re-encoding client node, scripted plans with grammar-generated inner/outer pairs; non-trivial = accepted and compared with the reference reconstruction; distinct = (compression, padding, size, chunking classes) resp. network schedule signature",
+		"", "reencoded_with_compression,reencoded_retry_hello,compressed_inner,inner_reconstruction_checked"},
+	"C04": {"one authentic hello with 1..3 rule violations (or a rule violation on the hello after HRR); non-trivial = the four abort observations were evaluated; distinct = (set of violations, layout classes, chunking class, outcome)",
+		"", "compressed_inner,retry_processed"},
+	"C05": {"live plans without ECH / TLS 1.2-only / through HRR, scripted plans with a plain, GREASE or undecryptable hello plus an arbitrary record stream; non-trivial = bytes compared in both directions; distinct = (hello family, sizes, chunking, outcome)",
+		"", "tls_stack_view_compared,passthrough_hrr_second_hello"},
+	"C06": {"one accepted first hello followed by an interleaving of <= 12 client / backend records (sequential on one goroutine, or with the read pump parked in Conn.Read over simnet; backend records optionally joined into one Write); non-trivial = compared record by record with the model; distinct = the sequence of (side, kind, joined) plus mode",
+		"", "hrr_armed,retry_processed,hello_without_hrr_or_late,concurrent_history,several_records_per_write"},
+	"C07": {"one bidirectional stream (recorded from a live handshake or synthetic) replayed under one enumerated dimension; an evaluation = one fresh Conn over the stream; distinct = per cut: (kind, record index, record type, rewritten or not, position class within the record)",
+		"transport cut (EOF / error, on its own Read or with the last bytes) at every byte offset of the client stream; write error at every offset and every single split point of the backend stream (stride 7/11 for streams with > 16 KB records); 10 chunkings x 7 read-buffer sizes, incl. two interleaved connections", "cut_in_first_record,cut_mid_stream,two_connections_interleaved,hrr_stream"},
+	"C08": {"stall plans: every offset of one first record; hostile plans: one mutated first record plus hostile record streams on both sides; non-trivial = all monitors evaluated; distinct = per stall offset (region, window, lateness) resp. (mutation kinds, item kinds, outcome)",
+		"stall after every byte offset of the first record, for each stall plan", "hostile_past_newconn"},
+	"C09": {"one authentic flight replayed against every ordered list of 1..4 keys from {target} + <= 3 others; an evaluation = one list; distinct = per plan (pool size, collisions, retry, layout classes)",
+		"all ordered key lists of length 1..4 over the plan's key pool", "config_id_collision,retry_replayed"},
+	"C10": {"one cell of the action grid (where the context ends relative to the hello and to NewConn's return, how the transport and the context react) x GOMAXPROCS, repeated 24-48 times; distinct = the grid cell",
+		"", "ctx_end_after_return,ctx_end_during_newconn_ok,ctx_end_while_blocked"},
+}
+
 func (Engine) Describe(prop string) core.Description {
-	d := core.Description{Components: map[string]string{
-		"ech.NewConn / ech.Conn (client-facing server)": "real code under test",
-		"TLS client":                "real crypto/tls client (go1.26.8)",
-		"backend / public-name TLS": "real crypto/tls server (go1.26.8)",
-		"network":                   "simulated (simnet links: seeded segmentation, latency, short reads, cuts, stalls, corruption)",
-		"clock":                     "virtual (testing/synctest)",
-		"crypto randomness":         "pinned per plan (testing/cryptotest)",
-		"other ECH clients":         "harness toolbox (echbox) sealing with the standard library's crypto/hpke",
-	}}
+	d := core.Description{Components: e1Components}
+	if r, ok := e1Rules[prop]; ok {
+		d.Rule = r[0]
+		d.Exhaustive = r[1]
+		for _, p := range splitComma(r[2]) {
+			d.RequiredProbes = append(d.RequiredProbes, p)
+		}
+	}
+	d.Assumptions = []string{
+		"go1.26.8's crypto/tls, crypto/hpke, testing/synctest and testing/cryptotest behave as documented (they are the independent oracle and the clock)",
+		"one ClientHello per TLS record (hellos longer than one record are a recorded known finding of C01, outside the other properties' quantifiers)",
+		"sampling, not proof: only the dimensions listed as exhaustive are enumerated, for the hellos / streams drawn from the seed",
+	}
+	if prop == "C10" {
+		d.Assumptions = append(d.Assumptions, "which ready case a select takes, and the order of goroutines made runnable together, are the Go runtime's choice: every scenario is repeated 24-48 times per plan and the plans are marked runtime_arbitrated")
+	}
 	return d
+}
+
+func splitComma(s string) []string {
+	var out []string
+	cur := ""
+	for _, c := range s {
+		if c == ',' {
+			if cur != "" {
+				out = append(out, cur)
+			}
+			cur = ""
+			continue
+		}
+		cur += string(c)
+	}
+	if cur != "" {
+		out = append(out, cur)
+	}
+	return out
 }
